@@ -996,3 +996,63 @@ def found_polarity(run, g, t, idx):
     if lo >= 0:
         return 'false'
     return None
+
+
+# ------------------------------------------------------------------------------ socket write sites
+def effective_write_sites(run, session_cls='session.WebsocketSession', depth=2):
+    """Places where the session socket is written, lifted through helper methods: a ``self._sock.sendall`` that is
+    not itself inside a lock section counts at each call site of its function (within the session class).
+    Returns [(cfg, node, call, description)]."""
+    out = []
+    seen = set()
+
+    def in_lock(g, n):
+        for fr in n.frames:
+            if fr.kind == 'with':
+                for it in fr.stmt.items:
+                    if 'x:lock' in run.types.expr(it.context_expr, g.ctx):
+                        return True
+        return False
+
+    def visit(fq, pred, d, via):
+        f = run.prog.funcs.get(fq)
+        if f is None or f.cls is None or f.cls.qual != session_cls or f.parent is not None:
+            return
+        g = run.cfg(fq, session_cls)
+        for n in g.live_nodes():
+            for c in n.calls:
+                if not pred(c, g):
+                    continue
+                key = (fq, id(c))
+                if key in seen:
+                    continue
+                seen.add(key)
+                if in_lock(g, n) or d >= depth or fq == session_cls + '.write':
+                    out.append((g, n, c, via + [fq]))
+                else:
+                    callers = [(cx, call) for (cx, call, t) in run.types.callers.get(fq, [])
+                               if cx.func.cls is not None and cx.func.cls.qual == session_cls and cx.recv == session_cls]
+                    if not callers:
+                        out.append((g, n, c, via + [fq]))
+                    for (cx, call) in callers:
+                        visit(cx.func.qual, lambda c2, g2, call=call: c2 is call, d + 1, via + [fq])
+
+    def is_sock_write(c, g):
+        if not (isinstance(c.func, ast.Attribute) and c.func.attr in ('sendall', 'send') and
+                any(t.kind == 'ext' and t.name in ('socket.sendall', 'socket.send') for t in run.types.call_targets(c, g.ctx))):
+            return False
+        if U(c.func.value) == 'self._sock':
+            return True
+        # a local that copies the session socket
+        if isinstance(c.func.value, ast.Name):
+            nodes = [n for n in g.live_nodes() if c in n.calls]
+            rd = g_rd(g)
+            for n in nodes:
+                for (o, on) in rd.origins(n, c.func.value):
+                    if U(o) == 'self._sock':
+                        return True
+        return False
+    for fq, f in list(run.prog.funcs.items()):
+        if f.cls is not None and f.cls.qual == session_cls and f.parent is None:
+            visit(fq, is_sock_write, 0, [])
+    return out
